@@ -248,6 +248,12 @@ func errorIface() *types.Interface {
 // (Go prints such floats without exponent or fraction).  The path is split on sign and digit count.
 func (ex *Exec) fmtSmallFloat(st *State, x *smt.Term) (Str, fmtStatus) {
 	C := ex.C
+	if x.Op == smt.OFFromSBV {
+		// float64(i) of a symbolic integer: decide the range on the integer (no FP reasoning needed)
+		if s, stt := ex.fmtSmallInt(st, x.Args[0], nil); stt == fmtOK {
+			return s, stt
+		}
+	}
 	lo, hi := C.FPConst(-99), C.FPConst(99)
 	isInt := C.Eq(C.FPUn(smt.OFFloor, x), x)
 	inr := C.And(C.And(C.FPCmp(smt.OFLe, lo, x), C.FPCmp(smt.OFLe, x, hi)), isInt)
